@@ -437,17 +437,8 @@ fn substitute_rvalue(rvalue: &mut Rvalue, type_params: &[TypeParamId], type_args
             substitute_type(from, type_params, type_args);
             substitute_type(to, type_params, type_args);
         }
-        Rvalue::StructInit { name, .. } => {
-            for tp in type_params {
-                if let Some(replacement) = type_args.get(tp.0 as usize) {
-                    let mangled_suffix = type_to_string(replacement);
-                    if name.contains("__mono_") {
-                        continue;
-                    }
-                    *name = format!("__mono_{}_{}", name, mangled_suffix);
-                }
-            }
-        }
+        // StructInit keeps its struct name: struct definitions are not instantiated
+        // per type argument, so there is no `__mono_<Struct>_<arg>` to refer to.
         _ => {}
     }
 }
